@@ -92,8 +92,7 @@ Definition a_failed_statement (kc : nat) (h : heap) (d : adata) (rs : list arow)
 
 (* what the restoration is supposed to guarantee *)
 Definition restores (kc : nat) (h : heap) (d : adata) (rs : list arow) : Prop :=
-  let '(h', d') := a_failed_statement kc h d rs in
-  forall p, a_lookup h' d' p = a_lookup h d p.
+  forall p, a_lookup (fst (a_failed_statement kc h d rs)) (snd (a_failed_statement kc h d rs)) p = a_lookup h d p.
 
 (* ---- it holds when nothing is patched in place: rows that sort after every existing row only append ---- *)
 Lemma get_cell_app h extra id : id < length h -> get_cell (h ++ extra) id = get_cell h id.
@@ -123,8 +122,23 @@ Qed.
 
 (* the snapshot's own lookup after the failed statement: the cells now say rows 2,3,4 — only row index 2 exists *)
 Lemma restoration_witness_lookup :
-  let '(h', d') := a_failed_statement 1 w_heap w_data [[10; 1]; [11; 2]]%Z in
-  map (get_cell h') (aview d') = [([0; 70]%Z, 4); ([1; 50]%Z, 2); ([2; 60]%Z, 3)] /\
-  a_lookup h' d' (fun _ => true) = [[70; 0]]%Z /\
+  let hd := a_failed_statement 1 w_heap w_data [[10; 1]; [11; 2]]%Z in
+  map (get_cell (fst hd)) (aview (snd hd)) = [([0; 70]%Z, 4); ([1; 50]%Z, 2); ([2; 60]%Z, 3)] /\
+  a_lookup (fst hd) (snd hd) (fun _ => true) = [[70; 0]]%Z /\
   a_lookup w_heap w_data (fun _ => true) = [[70; 0]; [50; 1]; [60; 2]]%Z.
 Proof. vm_compute. repeat split. Qed.
+
+(* the restoration does hold whenever the statement's ApplyEdits only allocated new cells (no cell patched in place) *)
+Lemma restores_if_heap_only_extended kc h d rs extra :
+  fst (a_apply kc (h, d) rs) = h ++ extra -> Forall (fun id => id < length h) (aview d) -> restores kc h d rs.
+Proof.
+  intros E F p. unfold a_failed_statement. destruct (a_apply kc (h, d) rs) as [h' d'] eqn:A. cbn [fst snd] in *.
+  subst h'. unfold acopy. apply (a_lookup_heap_ext h extra {| arows := arows d; aview := aview d |} p). exact F.
+Qed.
+
+Example restores_nonvacuous : restores 1 w_heap w_data [[80; 1]; [81; 2]]%Z.
+Proof.
+  apply (restores_if_heap_only_extended 1 w_heap w_data _ [([1; 80]%Z, 3); ([2; 81]%Z, 4)]).
+  - vm_compute. reflexivity.
+  - repeat constructor.
+Qed.
